@@ -364,6 +364,12 @@ func Series(t *rapid.T, n int, scale float64, label string) []float64 {
 			}
 		}
 	}
+	// forcing values below a millionth of the series scale are float artefacts, not data: snap them to zero
+	for i := range v {
+		if v[i] > 0 && v[i] < 1e-6*scale {
+			v[i] = 0
+		}
+	}
 	return v
 }
 
